@@ -162,6 +162,14 @@ CorruptA == \E dst \in Reg, src \in Full, how \in {"data", "checksum", "truncate
 (* encode to bytes and decode again; the expected result is the source itself *)
 EncodeDecodeA == \E dst \in Reg, src \in Full :
               Call("encode_decode", dst, <<src>>, Ok(reg[src]))
+(* hand-made bytes: the encoding of a register, structurally mutated at one position,
+   given to the decoder *)
+DecodeWireA == \E dst \in Reg, src \in Full : \E w \in {Tagged(reg[src])} \cup MutTagged(Tagged(reg[src])) :
+              Call("decode_wire", dst, <<w>>, DecodeTagged(w))
+(* ... mutated at two positions *)
+DecodeWire2A == \E dst \in Reg, src \in Full : \E w1 \in MutTagged(Tagged(reg[src])) :
+              w1[1] = "tag" /\ w1[2] = TagEnvelope /\ \E w \in MutTagged(w1) :
+              Call("decode_wire", dst, <<w>>, DecodeTagged(w))
 
 (* ---- observations ------------------------------------------------------------------*)
 ObsStructure == \E src \in Full : Observe("obs_structure", <<src>>, StructureFacts(reg[src]))
